@@ -535,6 +535,7 @@ func runC01(c *Ctx) {
 	c.Rule("R6")
 	c10R4(c)
 	c15QueryFilter(c)
+	c01DiversityPlumbing(c)
 
 	// R8 the accelerated client: order, non-overlapping batches, diversity counting (shared with C16.R5)
 	c.Rule("R8")
@@ -658,35 +659,43 @@ func c01R5(c *Ctx) {
 	want := map[string]string{"queried": "PeerQueried", "unreachable": "PeerUnreachable"}
 	seen := map[string]bool{}
 	for _, call := range u.Calls("(*" + qpsT + ").SetState") {
-		st := eng.ConstObj(uinfo, call.Args[1])
-		if st == nil {
-			continue
-		}
-		// enclosing range over up.<field>
-		for x := c.P.Parent(call); x != nil; x = c.P.Parent(x) {
-			rg, ok := x.(*ast.RangeStmt)
-			if !ok {
+		// one verdict per standing place of the call (a helper extracted for both loops stands in two)
+		for _, at := range ucf.LocsOf(call) {
+			st := eng.ConstObj(uinfo, exprAt(ucf, at, call.Args[1]))
+			if st == nil {
 				continue
 			}
-			s, isSel := eng.Unparen(rg.X).(*ast.SelectorExpr)
-			if !isSel {
+			peerArg := exprAt(ucf, at, call.Args[0])
+			var anchor ast.Node = call
+			if cs := ucf.CallSiteAt(at); cs != nil {
+				anchor = cs
+			}
+			// enclosing range over up.<field>
+			for x := c.P.Parent(anchor); x != nil; x = c.P.Parent(x) {
+				rg, ok := x.(*ast.RangeStmt)
+				if !ok {
+					continue
+				}
+				s, isSel := eng.Unparen(rg.X).(*ast.SelectorExpr)
+				if !isSel {
+					break
+				}
+				fld := eng.NameOf(s.Sel)
+				okT := want[fld] == st.Name() && rg.Value != nil && eng.SameExpr(uinfo, peerArg, rg.Value)
+				g := ucf.GuardedAt(at, func(ft eng.Fact) bool {
+					x, y, equal, isEq := ft.EqFact()
+					if !isEq || !equal {
+						return false
+					}
+					w := func(e ast.Expr) bool { co := eng.ConstObj(uinfo, e); return co != nil && co.Name() == "PeerWaiting" }
+					return w(x) || w(y)
+				})
+				c.Check(K(u.Name, fld+" -> "+st.Name()), call.Pos(), okT && g, "every peer of update."+fld+" moves from waiting to "+want[fld], "wrong target state, wrong peer, or not from waiting")
+				if okT {
+					seen[fld] = true
+				}
 				break
 			}
-			fld := eng.NameOf(s.Sel)
-			okT := want[fld] == st.Name() && rg.Value != nil && eng.SameExpr(uinfo, call.Args[0], rg.Value)
-			g, _ := ucf.Guarded(ucf.LocOf(call), func(ft eng.Fact) bool {
-				x, y, equal, isEq := ft.EqFact()
-				if !isEq || !equal {
-					return false
-				}
-				w := func(e ast.Expr) bool { co := eng.ConstObj(uinfo, e); return co != nil && co.Name() == "PeerWaiting" }
-				return w(x) || w(y)
-			})
-			c.Check(K(u.Name, fld+" -> "+st.Name()), call.Pos(), okT && g, "every peer of update."+fld+" moves from waiting to "+want[fld], "wrong target state, wrong peer, or not from waiting")
-			if okT {
-				seen[fld] = true
-			}
-			break
 		}
 	}
 	for fld := range want {
@@ -794,5 +803,100 @@ func c01Closest(c *Ctx) {
 			continue
 		}
 		c.Check(K(g.Name, "return#"+itoa(i)), ret.Pos(), eng.IsField(ginfo, ret.Results[0], "dht.lookupWithFollowupResult.peers"), "GetClosestPeers returns the lookup's non-failed result list", "returns "+short(ret.Results[0]))
+	}
+}
+
+// c01DiversityPlumbing: the per-response IP-group limit of a lookup is the routing table's
+// per-table limit of the configured diversity filter, and the filter's two limits are what its
+// constructor was given, each read where it is meant to be read.
+func c01DiversityPlumbing(c *Ctx) {
+	p := c.P
+	const fT = "dht.rtPeerIPGroupFilter"
+	f := c.Fn("(*dht.IpfsDHT).runQuery")
+	info := f.Info()
+	n := 0
+	f.Walk(func(x ast.Node) bool {
+		cl, ok := x.(*ast.CompositeLit)
+		if !ok {
+			return true
+		}
+		if tv, has := info.Types[cl]; !has || eng.TypeName(tv.Type) != "dht.query" {
+			return true
+		}
+		for _, el := range cl.Elts {
+			kv, isKV := el.(*ast.KeyValueExpr)
+			if !isKV {
+				continue
+			}
+			id, isID := kv.Key.(*ast.Ident)
+			if !isID || eng.NameOf(id) != "maxPeersPerIPGroup" {
+				continue
+			}
+			n++
+			// every value the field can receive is the filter's per-table limit (or the zero of `var`)
+			var srcs []ast.Expr
+			if o := eng.ObjOf(info, kv.Value); o != nil && localDef(f, kv.Value) == nil {
+				for _, d := range f.AssignedFrom(o) {
+					if d != nil {
+						srcs = append(srcs, d)
+					}
+				}
+			} else {
+				srcs = append(srcs, resolveLocal(f, kv.Value))
+			}
+			ok := len(srcs) >= 1
+			for _, d := range srcs {
+				if !eng.IsField(info, resolveLocal(f, d), fT+".maxForTable") {
+					ok = false
+				}
+			}
+			c.Check(K(f.Name, "response diversity limit"), kv.Pos(), ok, "a lookup drops a response naming more peers of one IP group than the diversity filter's per-table limit (maxForTable) — the limit the caller configured for the table, not the per-bucket one", "query.maxPeersPerIPGroup does not come from rtPeerIPGroupFilter.maxForTable")
+		}
+		return true
+	})
+	c.Check(K(f.Name, "sets the response diversity limit"), f.Pos(), n == 1, "runQuery hands the limit to the query", "found "+itoa(n)+" settings")
+	ctor := c.Fn("dht.NewRTPeerDiversityFilter")
+	cinfo := ctor.Info()
+	seen := 0
+	ctor.Walk(func(x ast.Node) bool {
+		cl, ok := x.(*ast.CompositeLit)
+		if !ok {
+			return true
+		}
+		if tv, has := cinfo.Types[cl]; !has || eng.TypeName(tv.Type) != fT {
+			return true
+		}
+		for _, el := range cl.Elts {
+			kv, isKV := el.(*ast.KeyValueExpr)
+			if !isKV {
+				continue
+			}
+			id, isID := kv.Key.(*ast.Ident)
+			if !isID {
+				continue
+			}
+			name := eng.NameOf(id)
+			if name != "maxPerCpl" && name != "maxForTable" {
+				continue
+			}
+			seen++
+			c.Check(K(ctor.Name, "stores "+name), kv.Pos(), eng.IsObj(cinfo, kv.Value, paramObj(ctor, name)), "the filter's "+name+" is the constructor's argument of that name", "field set from "+short(kv.Value))
+		}
+		return true
+	})
+	c.Check(K(ctor.Name, "stores both limits"), ctor.Pos(), seen == 2, "the constructor stores both limits", "found "+itoa(seen))
+	readers := map[string]map[string]bool{
+		"maxPerCpl":   {"(*dht.rtPeerIPGroupFilter).Allow": true},
+		"maxForTable": {"(*dht.rtPeerIPGroupFilter).Allow": true, "(*dht.IpfsDHT).runQuery": true},
+	}
+	for fld, okIn := range readers {
+		for _, g := range p.Funcs() {
+			if eng.Short(g.Pkg.PkgPath) != "dht" {
+				continue
+			}
+			for _, acc := range g.FieldAccesses(fT + "." + fld) {
+				c.Check(K(g.Root().Name, "reads "+fld), acc.Sel.Pos(), !acc.Write && okIn[g.Root().Name], "the filter's "+fld+" is read only where that limit applies", "accessed in "+g.Root().Name)
+			}
+		}
 	}
 }
